@@ -312,7 +312,7 @@ class SlotNode(BaseNode):
     #    for unfilled slots (rendered slots WILL raise an error if the fill is missing).
     # 2. User may provide extra fills, but these may belong to slots we haven't
     #    encountered in this render run. So we CANNOT say which ones are extra.
-    def render(self, context: Context, name: str, **kwargs: Any) -> SafeString:
+    def render(self, context: Context, /, name: str, **kwargs: Any) -> SafeString:
         # Do not render `{% slot %}` tags within the `{% component %} .. {% endcomponent %}` tags
         # at the fill discovery stage (when we render the component's body to determine if the body
         # is a default slot, or contains named slots).
